@@ -189,6 +189,30 @@ pub mod unit_mh {
         //@end
     }
 
+    // ---- C14: a candidate of zero / undefined density is never accepted, for every u in [0,1) including exactly 0 ----
+    pub open spec fn bad_density(a: XR) -> bool { a is NaN || a is NegInf }
+    pub proof fn lemma_mh_rejects_zero_density<T, D: Target<T>, Q: Proposal<T>>(d: D, q: Q, x: Seq<T>, y: Seq<T>, u: Fl, next: Seq<T>)
+        requires
+            val(d.lp(x)) is Fin,                       // started at a state of finite density
+            bad_density(val(d.lp(y))),                 // the candidate has log-density -inf or NaN
+            val(u) is Fin, 0real <= val(u)->Fin_0 < 1real,
+            mh_rule(d, q, x, y, u, next),
+        ensures next == x                              // [C14.mh_rejects_zero_or_nan_density_candidate_for_every_u]
+    {
+    }
+    /// over the step contract: a chain at finite density stays at finite density (or moves to +inf density, never to -inf/NaN)
+    pub proof fn lemma_mh_step_keeps_density_defined<T, D: Target<T>, Q: Proposal<T>>(pre: MHMarkovChain<T, F, D, Q>, post: MHMarkovChain<T, F, D, Q>)
+        requires mh_step_post(pre, post), val(pre.target.lp(pre.current_state@)) is Fin, post.target == pre.target
+        ensures !bad_density(val(post.target.lp(post.current_state@)))     // [C14.mh_step_never_moves_to_zero_or_nan_density]
+    {
+        broadcast use ax_unif_range;
+        let y = choose |y: Seq<T>| #[trigger] Q::sample_rel(pre.proposal, pre.current_state@, post.proposal, y)
+            && mh_rule(pre.target, pre.proposal, pre.current_state@, y, unif_out(state(pre.rng)), post.current_state@);
+        if bad_density(val(pre.target.lp(y))) {
+            lemma_mh_rejects_zero_density(pre.target, pre.proposal, pre.current_state@, y, unif_out(state(pre.rng)), post.current_state@);
+        }
+    }
+
     // ---- lemma: detailed balance of the MH kernel on reals (the textbook corollary of accept_iff
     //      under the stated assumption that u is uniform on [0,1), so P[ln u < r] = min(1, e^r)) ----
     pub open spec fn rmin(a: real, b: real) -> real { if a <= b { a } else { b } }
